@@ -49,10 +49,60 @@ _RE_STATES = re.compile(r'(\d+) states generated, (\d+) distinct states found')
 _RE_DEPTH = re.compile(r'The depth of the complete state graph search is (\d+)')
 
 
+class Sink:
+    """Constant-memory, order-independent, reproducible sample of the lines TLC emits with a given prefix.
+
+    TLC's workers print in a nondeterministic order and an enumeration can emit millions of lines, so the sample is a
+    bottom-k sketch: the `budget` lines with the smallest keyed hash (a uniform sample without replacement of the
+    DISTINCT lines, the same whatever the order of arrival).  `classify` splits the lines into classes with their own
+    budgets (used to spend the budget on programs the specification accepts)."""
+
+    def __init__(self, prefix, budget=None, classify=None, budgets=None):
+        import hashlib
+        self.prefix, self.budget, self.classify, self.budgets = prefix, budget, classify, budgets or {}
+        self.heaps, self.members, self.total, self.by_class = {}, {}, 0, {}
+        self._h = lambda b: hashlib.blake2b(b, digest_size=12, key=b'seed%d' % seed()).digest()
+
+    def add(self, line):
+        import heapq
+        self.total += 1
+        cls = self.classify(line) if self.classify else None
+        self.by_class[cls] = self.by_class.get(cls, 0) + 1
+        k = self.budgets.get(cls, self.budget)
+        if k == 0:
+            return
+        heap, mem = self.heaps.setdefault(cls, []), self.members.setdefault(cls, set())
+        h = self._h(line.encode('utf8', 'replace'))
+        if h in mem:
+            self.total -= 1
+            self.by_class[cls] -= 1
+            return
+        neg = bytes(255 - x for x in h)          # max-heap on h through a min-heap on its complement
+        if k is None or len(heap) < k:
+            heapq.heappush(heap, (neg, line))
+            mem.add(h)
+        elif neg > heap[0][0]:
+            old = heapq.heapreplace(heap, (neg, line))
+            mem.discard(bytes(255 - x for x in old[0]))
+            mem.add(h)
+
+    def lines(self, cls=None):
+        """the sample, in hash order (reproducible)"""
+        return [l for _, l in sorted(self.heaps.get(cls, []), reverse=True)]
+
+    def all_lines(self):
+        return [l for c in sorted(self.heaps, key=repr) for l in self.lines(c)]
+
+    @property
+    def sampled(self):
+        return any(self.by_class.get(c, 0) > len(h) for c, h in self.heaps.items())
+
+
 def run_tlc(module, cfg, wd, *, workers=NCPU, env=None, dump=None, simulate=None, depth=None, jvm=(),
             timeout=3600, extra=(), xss='512m', heap=None, coverage=False, deadlock=False,
-            tlc_seed=None):
-    """Run TLC on spec/<module>.tla with config text `cfg`.  Returns a dict."""
+            tlc_seed=None, sink=None):
+    """Run TLC on spec/<module>.tla with config text `cfg`.  Returns a dict.  Lines starting with sink.prefix go to
+    the sink (constant memory) instead of the captured output."""
     cfgpath = os.path.join(wd, module + '_%d.cfg' % (abs(hash((cfg, dump, simulate))) % 10**8))
     with open(cfgpath, 'w') as fh:
         fh.write(cfg)
@@ -82,13 +132,29 @@ def run_tlc(module, cfg, wd, *, workers=NCPU, env=None, dump=None, simulate=None
     if env:
         e.update({k: str(v) for k, v in env.items()})
     t0 = time.time()
-    try:
-        p = subprocess.run(cmd, cwd=SPEC, env=e, stdout=subprocess.PIPE, stderr=subprocess.STDOUT,
-                           timeout=timeout, text=True, errors='replace')
-        out, rc, timed_out = p.stdout, p.returncode, False
-    except subprocess.TimeoutExpired as ex:
-        out = ex.stdout if isinstance(ex.stdout, str) else (ex.stdout or b'').decode('utf8', 'replace')
-        rc, timed_out = -9, True
+    if sink is not None:
+        import threading
+        p = subprocess.Popen(cmd, cwd=SPEC, env=e, stdout=subprocess.PIPE, stderr=subprocess.STDOUT, text=True, errors='replace')
+        killer = threading.Timer(timeout, p.kill)
+        killer.start()
+        kept = []
+        for line in p.stdout:
+            if line.startswith(sink.prefix):
+                sink.add(line.rstrip('\n'))
+            else:
+                kept.append(line)
+        rc = p.wait()
+        timed_out = not killer.is_alive() and rc != 0 and time.time() - t0 >= timeout
+        killer.cancel()
+        out = ''.join(kept)
+    else:
+        try:
+            p = subprocess.run(cmd, cwd=SPEC, env=e, stdout=subprocess.PIPE, stderr=subprocess.STDOUT,
+                               timeout=timeout, text=True, errors='replace')
+            out, rc, timed_out = p.stdout, p.returncode, False
+        except subprocess.TimeoutExpired as ex:
+            out = ex.stdout if isinstance(ex.stdout, str) else (ex.stdout or b'').decode('utf8', 'replace')
+            rc, timed_out = -9, True
     shutil.rmtree(meta, ignore_errors=True)
     res = {'out': out, 'rc': rc, 'timed_out': timed_out, 'wall': time.time() - t0,
            'generated': 0, 'distinct': 0, 'depth': 0}
